@@ -163,6 +163,7 @@ Qed.
 
 Section WithXc.
 Variable xc : cop -> value -> value -> tv.
+Variable xg : list value -> tv.
 
 (* a comparison carried out in f64 is not TT when the operator fails on the embedding *)
 Lemma cmp_tv_f64 : forall o x l a b,
@@ -185,9 +186,10 @@ Proof. intros o x l c Hv Hop. unfold cmp_tv. rewrite Hv, Hop. discriminate. Qed.
 (* ------------------------------------------------------------------ *)
 (* the comparison arms, one lemma per bound and strictness              *)
 
-(* no integer literal against an integer statistic with a float row *)
-Definition mix3 (v : pval) (x : value) (j : json) : bool :=
-  match v, x with PInt _, VFloat _ => is_jint j | _, _ => false end.
+(* an integer literal against an integer statistic while the comparison is
+   carried out in f64 (float row value, or a float member of the group) *)
+Definition mixf (v : pval) (fl : bool) (x : value) (j : json) : bool :=
+  match v with PInt _ => (fl || is_vfloat x) && is_jint j | _ => false end.
 
 Ltac zb :=
   repeat match goal with
@@ -283,91 +285,99 @@ Proof.
       try (mono z m); rfin.
 Qed.
 
+Ltac f64p := eapply cmp_tv_f64; [discriminate | cbn [vcmp lit prom]; reflexivity | intros _ _].
+Ltac ordp := eapply cmp_tv_ord; [cbn [vcmp lit prom]; reflexivity | ].
+Ltac nofl Hk fl :=
+  cbn [mixf is_jint is_vfloat] in Hk; rewrite ?andb_true_r, ?orb_false_r, ?orb_true_r in Hk;
+  try discriminate Hk; try (subst fl); cbn [prom].
+
 (* j > v  and  j <= x   ==>   not (x <= v), outside the mixed class *)
-Lemma atom_le : forall j v x,
-  value_gt j v = true -> lower_ok x j = true -> mix3 v x j = false ->
-  cmp_tv xc OLe x (lit v) <> TT.
+Lemma atom_le : forall fl j v x,
+  value_gt j v = true -> lower_ok x j = true -> mixf v fl x j = false ->
+  cmp_tv xc OLe (prom fl x) (prom fl (lit v)) <> TT.
 Proof.
-  intros j v x Hc Hw Hk.
+  intros fl j v x Hc Hw Hk.
   destruct v as [s | i | g | b | ]; cbn [value_gt] in Hc; try discriminate.
   - jd j; cbn [as_str] in Hc; try discriminate.
     cbn [lower_ok] in Hw. rewrite le_val_res in Hw.
     xd x; cbn [vcmp] in Hw; try (cbv [le_res] in Hw; discriminate); fb.
-    ord. unfold s_gt in Hc.
-    assert (H1 : bytes_cmp t s = Gt) by (destruct (bytes_cmp t s); congruence).
-    rewrite (bytes_lower_strict _ _ _ H1 Hw). reflexivity.
+    destruct fl; ordp; unfold s_gt in Hc;
+      (assert (H1 : bytes_cmp t s = Gt) by (destruct (bytes_cmp t s); congruence));
+      rewrite (bytes_lower_strict _ _ _ H1 Hw); reflexivity.
   - jd j; cbn [as_i64] in Hc; try discriminate.
     destruct (in_i64 m); try discriminate. zb.
     cbn [lower_ok] in Hw. rewrite le_val_res in Hw.
-    xd x; cbn [vcmp] in Hw; try (cbv [le_res] in Hw; discriminate); fb.
-    ord. zfin.
+    xd x; cbn [vcmp] in Hw; try (cbv [le_res] in Hw; discriminate); fb; nofl Hk fl.
+    ordp. zfin.
   - jd j; cbn [as_f64] in Hc; try discriminate; fb;
       cbn [lower_ok] in Hw; rewrite le_val_res in Hw;
-      xd x; cbn [vcmp] in Hw; try (cbv [le_res] in Hw; discriminate); fb; f64;
+      xd x; cbn [vcmp] in Hw; try (cbv [le_res] in Hw; discriminate); fb; destruct fl; f64p;
       try (mono m z); rfin.
 Qed.
 
 (* j < v  and  x <= j   ==>   not (x >= v), outside the mixed class *)
-Lemma atom_ge : forall j v x,
-  value_lt j v = true -> upper_ok x j = true -> mix3 v x j = false ->
-  cmp_tv xc OGe x (lit v) <> TT.
+Lemma atom_ge : forall fl j v x,
+  value_lt j v = true -> upper_ok x j = true -> mixf v fl x j = false ->
+  cmp_tv xc OGe (prom fl x) (prom fl (lit v)) <> TT.
 Proof.
-  intros j v x Hc Hw Hk.
+  intros fl j v x Hc Hw Hk.
   destruct v as [s | i | g | b | ]; cbn [value_lt] in Hc; try discriminate.
   - jd j; cbn [as_str] in Hc; try discriminate.
     cbn [upper_ok] in Hw. rewrite le_val_res in Hw.
     xd x; cbn [vcmp] in Hw; try (cbv [le_res] in Hw; discriminate); fb.
-    ord. unfold s_lt in Hc.
-    assert (H1 : bytes_cmp t s = Lt) by (destruct (bytes_cmp t s); congruence).
-    rewrite (bytes_upper_strict _ _ _ H1 Hw). reflexivity.
+    destruct fl; ordp; unfold s_lt in Hc;
+      (assert (H1 : bytes_cmp t s = Lt) by (destruct (bytes_cmp t s); congruence));
+      rewrite (bytes_upper_strict _ _ _ H1 Hw); reflexivity.
   - jd j; cbn [as_i64] in Hc; try discriminate.
     destruct (in_i64 m); try discriminate. zb.
     cbn [upper_ok] in Hw. rewrite le_val_res in Hw.
-    xd x; cbn [vcmp] in Hw; try (cbv [le_res] in Hw; discriminate); fb.
-    ord. zfin.
+    xd x; cbn [vcmp] in Hw; try (cbv [le_res] in Hw; discriminate); fb; nofl Hk fl.
+    ordp. zfin.
   - jd j; cbn [as_f64] in Hc; try discriminate; fb;
       cbn [upper_ok] in Hw; rewrite le_val_res in Hw;
-      xd x; cbn [vcmp] in Hw; try (cbv [le_res] in Hw; discriminate); fb; f64;
+      xd x; cbn [vcmp] in Hw; try (cbv [le_res] in Hw; discriminate); fb; destruct fl; f64p;
       try (mono z m); rfin.
 Qed.
 
 (* v outside [mn, mx]  and  mn <= x <= mx   ==>   not (x = v) *)
-Lemma atom_eq : forall mn mx v x,
+Lemma atom_eq : forall fl mn mx v x,
   value_in_range v mn mx = false ->
   lower_ok x mn = true -> upper_ok x mx = true ->
-  mix3 v x mn = false -> mix3 v x mx = false ->
-  cmp_tv xc OEq x (lit v) <> TT.
+  mixf v fl x mn = false -> mixf v fl x mx = false ->
+  cmp_tv xc OEq (prom fl x) (prom fl (lit v)) <> TT.
 Proof.
-  intros mn mx v x Hc Hl Hu Hk1 Hk2.
+  intros fl mn mx v x Hc Hl Hu Hk1 Hk2.
   destruct v as [s | i | g | b | ]; cbn [value_in_range] in Hc; try discriminate.
   - destruct mn as [ | | | | t1 | ]; cbn [as_str] in Hc; try discriminate.
     destruct mx as [ | | | | t2 | ]; cbn [as_str] in Hc; try discriminate.
     cbn [lower_ok] in Hl. cbn [upper_ok] in Hu. rewrite le_val_res in Hl, Hu.
     xd x; cbn [vcmp] in Hl, Hu; try (cbv [le_res] in Hl; discriminate); try (cbv [le_res] in Hu; discriminate); fb.
-    ord.
-    apply andb_false_iff in Hc. destruct Hc as [Hc | Hc].
-    + unfold s_ge in Hc.
-      assert (H1 : bytes_cmp t1 s = Gt).
-      { rewrite bytes_cmp_swap. destruct (bytes_cmp s t1); try discriminate; reflexivity. }
-      rewrite (bytes_lower_strict _ _ _ H1 Hl). reflexivity.
-    + unfold s_le in Hc.
-      assert (H1 : bytes_cmp t2 s = Lt).
-      { rewrite bytes_cmp_swap. destruct (bytes_cmp s t2); try discriminate; reflexivity. }
-      rewrite (bytes_upper_strict _ _ _ H1 Hu). reflexivity.
+    apply andb_false_iff in Hc.
+    destruct fl; ordp; (destruct Hc as [Hc | Hc];
+    [ unfold s_ge in Hc;
+      (assert (H1 : bytes_cmp t1 s = Gt)
+        by (rewrite bytes_cmp_swap; destruct (bytes_cmp s t1); try discriminate; reflexivity));
+      rewrite (bytes_lower_strict _ _ _ H1 Hl); reflexivity
+    | unfold s_le in Hc;
+      (assert (H1 : bytes_cmp t2 s = Lt)
+        by (rewrite bytes_cmp_swap; destruct (bytes_cmp s t2); try discriminate; reflexivity));
+      rewrite (bytes_upper_strict _ _ _ H1 Hu); reflexivity ]).
   - destruct mn as [ | | m1 | | | ]; cbn [as_i64] in Hc; try discriminate.
     destruct (in_i64 m1); try discriminate.
     destruct mx as [ | | m2 | | | ]; cbn [as_i64] in Hc; try discriminate.
     destruct (in_i64 m2); try discriminate.
     cbn [lower_ok] in Hl. cbn [upper_ok] in Hu. rewrite le_val_res in Hl, Hu.
-    xd x; cbn [vcmp] in Hl, Hu; try (cbv [le_res] in Hl; discriminate); try (cbv [le_res] in Hu; discriminate); fb.
-    ord.
+    xd x; cbn [vcmp] in Hl, Hu; try (cbv [le_res] in Hl; discriminate); try (cbv [le_res] in Hu; discriminate); fb;
+      nofl Hk1 fl.
+    ordp.
     apply andb_false_iff in Hc; destruct Hc as [Hc | Hc];
       rewrite ?Z.geb_leb in Hc; apply Z.leb_gt in Hc; zfin.
   - destruct mn as [ | | m1 | a1 | | ]; cbn [as_f64] in Hc; try discriminate;
       destruct mx as [ | | m2 | a2 | | ]; cbn [as_f64] in Hc; try discriminate;
       cbn [lower_ok] in Hl; cbn [upper_ok] in Hu; rewrite le_val_res in Hl, Hu;
       xd x; cbn [vcmp] in Hl, Hu; try (cbv [le_res] in Hl; discriminate); try (cbv [le_res] in Hu; discriminate); fb;
-      (eapply cmp_tv_f64; [discriminate | cbn [vcmp lit]; reflexivity | intros Nx Ng]).
+      destruct fl;
+      (eapply cmp_tv_f64; [discriminate | cbn [vcmp lit prom]; reflexivity | intros Nx Ng]).
     all: match type of Hc with
          | f_ge _ ?a && f_le _ ?b = false =>
              let Na := fresh "Na" in let Nb := fresh "Nb" in
@@ -383,15 +393,41 @@ Qed.
 (* ------------------------------------------------------------------ *)
 (* predicate trees                                                      *)
 
+Lemma prom_false : forall v, prom false v = v.
+Proof. reflexivity. Qed.
+
 Lemma mixed_atom_false : forall v s x,
-  mixed_atom v s x = false -> mix3 v x (st_min s) = false /\ mix3 v x (st_max s) = false.
+  mixed_atom v s x = false ->
+  mixf v false x (st_min s) = false /\ mixf v false x (st_max s) = false.
 Proof.
-  intros v s x H. unfold mixed_atom in H. unfold mix3.
-  destruct v; auto. destruct x; auto. apply orb_false_iff in H. exact H.
+  intros v s x H. unfold mixed_atom in H. unfold mixf.
+  destruct v; auto. destruct x; cbn; auto. apply orb_false_iff in H. exact H.
 Qed.
 
-Lemma cmp_tv_null : forall o l, cmp_tv xc o VNull l <> TT.
-Proof. intros o l. unfold cmp_tv. cbn. discriminate. Qed.
+(* outside the known class a BETWEEN / IN group is of one class, and an integer
+   literal in it is compared exactly or against statistics that are no integers *)
+Lemma group_known_false : forall x lits s,
+  group_known x lits s = false ->
+  uniform (x :: map lit lits) = true /\
+  forall v, In v lits ->
+    mixf v (existsb is_vfloat (x :: map lit lits)) x (st_min s) = false /\
+    mixf v (existsb is_vfloat (x :: map lit lits)) x (st_max s) = false.
+Proof.
+  intros x lits s H. unfold group_known in H.
+  apply orb_false_iff in H. destruct H as (Hu & Hm).
+  apply negb_false_iff in Hu. split; [exact Hu|].
+  intros v Hv. unfold mixf. destruct v; auto.
+  assert (Hp : existsb is_pint lits = true) by (apply existsb_exists; exists (PInt i); auto).
+  rewrite Hp, andb_true_r in Hm.
+  assert (Hx : (existsb is_vfloat (x :: map lit lits) || is_vfloat x) = existsb is_vfloat (x :: map lit lits)).
+  { cbn [existsb]. destruct (is_vfloat x); cbn; auto. apply orb_false_r. }
+  rewrite Hx.
+  destruct (existsb is_vfloat (x :: map lit lits)); cbn in *; auto.
+  apply orb_false_iff in Hm. destruct Hm as (-> & ->). auto.
+Qed.
+
+Lemma cmp_tv_null : forall o fl l, cmp_tv xc o (prom fl VNull) l <> TT.
+Proof. intros o fl l. unfold cmp_tv. destruct fl; cbn; discriminate. Qed.
 
 Lemma within_bounds : forall x s, within x s = true -> x <> VNull ->
   lower_ok x (st_min s) = true /\ upper_ok x (st_max s) = true.
@@ -400,19 +436,20 @@ Proof.
   destruct x; try congruence; apply andb_true_iff in H; exact H.
 Qed.
 
-Lemma in_tv_not_TT : forall x vs,
-  (forall v, In v vs -> cmp_tv xc OEq x (lit v) <> TT) -> in_tv xc x vs <> TT.
+Lemma fold_or_not_TT : forall (f : value -> tv) ls,
+  (forall l, In l ls -> f l <> TT) ->
+  fold_right (fun l acc => tv_or (f l) acc) FF ls <> TT.
 Proof.
-  intros x vs. induction vs as [|v vs IH]; intros H; cbn.
+  intros f ls. induction ls as [|l ls IH]; intros H; cbn.
   - discriminate.
   - intros Hc. apply tv_or_TT in Hc. destruct Hc as [Hc | Hc].
-    + apply (H v); [left; reflexivity | exact Hc].
+    + apply (H l); [left; reflexivity | exact Hc].
     + apply IH; [|exact Hc]. intros w Hw. apply H. right. exact Hw.
 Qed.
 
 Theorem sound_modulo_known : forall p st r,
   in_stats r st -> known_mixed p st r = false -> eval_stats p st = false ->
-  sat xc p r <> TT.
+  sat xc xg p r <> TT.
 Proof.
   intros p st r Hin.
   induction p as [c v | c v | c v | c v | c v | c v | c vs | c vs | c lo hi
@@ -420,16 +457,16 @@ Proof.
     intros Hk He; try discriminate.
   - (* Eq *)
     destruct (cget c st) as [s|] eqn:Ec; [|discriminate].
-    destruct (rget c r) eqn:Ex; [apply cmp_tv_null | | | | ];
+    destruct (rget c r) eqn:Ex; [apply (cmp_tv_null OEq false) | | | | ];
       rewrite <- Ex in *;
       (assert (Hn : rget c r <> VNull) by congruence);
       destruct (within_bounds _ _ (Hin c s Ec) Hn) as (Hl & Hu);
       destruct (mixed_atom_false _ _ _ Hk) as (K1 & K2);
-      eapply atom_eq; eauto.
+      exact (atom_eq false _ _ _ _ He Hl Hu K1 K2).
   - (* Lt *)
     destruct (cget c st) as [s|] eqn:Ec; [|discriminate].
     apply negb_false_iff in He.
-    destruct (rget c r) eqn:Ex; [apply cmp_tv_null | | | | ];
+    destruct (rget c r) eqn:Ex; [apply (cmp_tv_null OLt false) | | | | ];
       rewrite <- Ex in *;
       (assert (Hn : rget c r <> VNull) by congruence);
       destruct (within_bounds _ _ (Hin c s Ec) Hn) as (Hl & Hu);
@@ -437,16 +474,16 @@ Proof.
   - (* LtEq *)
     destruct (cget c st) as [s|] eqn:Ec; [|discriminate].
     apply negb_false_iff in He.
-    destruct (rget c r) eqn:Ex; [apply cmp_tv_null | | | | ];
+    destruct (rget c r) eqn:Ex; [apply (cmp_tv_null OLe false) | | | | ];
       rewrite <- Ex in *;
       (assert (Hn : rget c r <> VNull) by congruence);
       destruct (within_bounds _ _ (Hin c s Ec) Hn) as (Hl & Hu);
       destruct (mixed_atom_false _ _ _ Hk) as (K1 & K2);
-      eapply atom_le; eauto.
+      exact (atom_le false _ _ _ He Hl K1).
   - (* Gt *)
     destruct (cget c st) as [s|] eqn:Ec; [|discriminate].
     apply negb_false_iff in He.
-    destruct (rget c r) eqn:Ex; [apply cmp_tv_null | | | | ];
+    destruct (rget c r) eqn:Ex; [apply (cmp_tv_null OGt false) | | | | ];
       rewrite <- Ex in *;
       (assert (Hn : rget c r <> VNull) by congruence);
       destruct (within_bounds _ _ (Hin c s Ec) Hn) as (Hl & Hu);
@@ -454,44 +491,44 @@ Proof.
   - (* GtEq *)
     destruct (cget c st) as [s|] eqn:Ec; [|discriminate].
     apply negb_false_iff in He.
-    destruct (rget c r) eqn:Ex; [apply cmp_tv_null | | | | ];
+    destruct (rget c r) eqn:Ex; [apply (cmp_tv_null OGe false) | | | | ];
       rewrite <- Ex in *;
       (assert (Hn : rget c r <> VNull) by congruence);
       destruct (within_bounds _ _ (Hin c s Ec) Hn) as (Hl & Hu);
       destruct (mixed_atom_false _ _ _ Hk) as (K1 & K2);
-      eapply atom_ge; eauto.
+      exact (atom_ge false _ _ _ He Hu K2).
   - (* In *)
     destruct (cget c st) as [s|] eqn:Ec; [|discriminate].
-    apply in_tv_not_TT. intros v Hv.
+    destruct (group_known_false _ _ _ Hk) as (Hu & Hm).
+    unfold in_tv, group_tv. rewrite Hu.
+    set (fl := existsb is_vfloat (rget c r :: map lit vs)) in *.
+    apply (fold_or_not_TT (fun l => cmp_tv xc OEq (prom fl (rget c r)) (prom fl l))).
+    intros l Hl. apply in_map_iff in Hl. destruct Hl as (v & <- & Hv).
     assert (Hr : value_in_range v (st_min s) (st_max s) = false).
     { destruct (value_in_range v (st_min s) (st_max s)) eqn:E; auto.
       assert (existsb (fun v => value_in_range v (st_min s) (st_max s)) vs = true)
         by (apply existsb_exists; exists v; auto). congruence. }
-    assert (Hm : mixed_atom v s (rget c r) = false).
-    { destruct (mixed_atom v s (rget c r)) eqn:E; auto.
-      assert (existsb (fun v => mixed_atom v s (rget c r)) vs = true)
-        by (apply existsb_exists; exists v; auto). congruence. }
+    destruct (Hm v Hv) as (K1 & K2).
     destruct (rget c r) eqn:Ex; [apply cmp_tv_null | | | | ];
       rewrite <- Ex in *;
       (assert (Hn : rget c r <> VNull) by congruence);
-      destruct (within_bounds _ _ (Hin c s Ec) Hn) as (Hl & Hu);
-      destruct (mixed_atom_false _ _ _ Hm) as (K1 & K2);
-      eapply atom_eq; eauto.
+      destruct (within_bounds _ _ (Hin c s Ec) Hn) as (Hlo & Hhi);
+      exact (atom_eq fl _ _ _ _ Hr Hlo Hhi K1 K2).
   - (* Between *)
     destruct (cget c st) as [s|] eqn:Ec; [|discriminate].
-    apply negb_false_iff in He. apply orb_false_iff in Hk. destruct Hk as (Klo & Khi).
+    apply negb_false_iff in He.
+    destruct (group_known_false _ _ _ Hk) as (Hu & Hm).
+    unfold between_tv, group_tv. cbn [map] in Hu, Hm. rewrite Hu.
+    set (fl := existsb is_vfloat [rget c r; lit lo; lit hi]) in *.
+    destruct (Hm lo (or_introl eq_refl)) as (K1 & K2).
+    destruct (Hm hi (or_intror (or_introl eq_refl))) as (K3 & K4).
     intros Hc. apply tv_and_TT in Hc. destruct Hc as (Hge & Hle).
-    destruct (rget c r) eqn:Ex; [exact (cmp_tv_null _ _ Hge) | | | | ];
+    destruct (rget c r) eqn:Ex; [exact (cmp_tv_null _ _ _ Hge) | | | | ];
       rewrite <- Ex in *;
       (assert (Hn : rget c r <> VNull) by congruence);
-      destruct (within_bounds _ _ (Hin c s Ec) Hn) as (Hl & Hu);
-      destruct (mixed_atom_false _ _ _ Klo) as (K1 & K2);
-      destruct (mixed_atom_false _ _ _ Khi) as (K3 & K4);
+      destruct (within_bounds _ _ (Hin c s Ec) Hn) as (Hlo & Hhi);
       apply orb_true_iff in He; destruct He as [He | He];
-      [ exact (atom_ge _ _ _ He Hu K2 Hge) | exact (atom_le _ _ _ He Hl K3 Hle)
-      | exact (atom_ge _ _ _ He Hu K2 Hge) | exact (atom_le _ _ _ He Hl K3 Hle)
-      | exact (atom_ge _ _ _ He Hu K2 Hge) | exact (atom_le _ _ _ He Hl K3 Hle)
-      | exact (atom_ge _ _ _ He Hu K2 Hge) | exact (atom_le _ _ _ He Hl K3 Hle) ].
+      first [ exact (atom_ge fl _ _ _ He Hhi K2 Hge) | exact (atom_le fl _ _ _ He Hlo K3 Hle) ].
   - (* And *)
     apply orb_false_iff in Hk. destruct Hk as (K1 & K2).
     intros Hc. apply tv_and_TT in Hc. destruct Hc as (H1 & H2).
@@ -523,69 +560,85 @@ Proof.
 Qed.
 
 (* ------------------------------------------------------------------ *)
-(* corollaries: inputs on which the known class cannot occur            *)
+(* corollary: well-typed inputs, on which the known class cannot occur  *)
 
-(* rows that hold no float in a column whose statistics are integers *)
-Definition float_cols_typed (r : row) (st : stats) : Prop :=
-  forall c s, cget c st = Some s ->
-    match rget c r with
-    | VFloat _ => is_jint (st_min s) = false /\ is_jint (st_max s) = false
-    | _ => True
-    end.
+Lemma val_has_same_class : forall t a b,
+  val_has t a = true -> val_has t b = true -> same_class a b = true.
+Proof. intros t a b Ha Hb. destruct t, a, b; try discriminate; reflexivity. Qed.
 
-Lemma typed_not_known : forall p st r, float_cols_typed r st -> known_mixed p st r = false.
+Lemma typed_uniform : forall t g,
+  (forall v, In v g -> val_has t v = true) -> uniform g = true.
 Proof.
-  intros p st r Ht.
-  assert (Ha : forall c s v, cget c st = Some s -> mixed_atom v s (rget c r) = false).
-  { intros c s v Hc. specialize (Ht c s Hc). unfold mixed_atom.
-    destruct v; auto. destruct (rget c r); auto. destruct Ht as (-> & ->). reflexivity. }
+  intros t g H. unfold uniform.
+  apply forallb_forall. intros a Ha. apply forallb_forall. intros b Hb.
+  exact (val_has_same_class t a b (H a Ha) (H b Hb)).
+Qed.
+
+Lemma typed_group_not_known : forall t x lits s,
+  val_has t x = true -> forallb (lit_has t) lits = true -> group_known x lits s = false.
+Proof.
+  intros t x lits s Hx Hl. unfold group_known.
+  assert (Hg : forall v, In v (x :: map lit lits) -> val_has t v = true).
+  { intros v [<- | Hv]; [exact Hx|]. apply in_map_iff in Hv. destruct Hv as (w & <- & Hw).
+    exact (proj1 (forallb_forall _ _) Hl w Hw). }
+  rewrite (typed_uniform t _ Hg). cbn [negb orb].
+  destruct (existsb is_vfloat (x :: map lit lits)) eqn:Ef; [|reflexivity].
+  destruct (existsb is_pint lits) eqn:Ep; [|reflexivity].
+  exfalso.
+  apply existsb_exists in Ef. destruct Ef as (vf & Hvf & Hf).
+  apply existsb_exists in Ep. destruct Ep as (vp & Hvp & Hp).
+  assert (H1 := Hg vf Hvf).
+  assert (H2 := proj1 (forallb_forall _ _) Hl vp Hvp). unfold lit_has in H2.
+  destruct vf; try discriminate. destruct vp; try discriminate.
+  destruct t; discriminate.
+Qed.
+
+Lemma typed_not_known : forall ty p st r,
+  row_typed ty r -> pred_typed ty p = true -> known_mixed p st r = false.
+Proof.
+  intros ty p st r Hr.
+  assert (Ha : forall c v s, lit_has (ty c) v = true -> mixed_atom v s (rget c r) = false).
+  { intros c v s Hv. specialize (Hr c). unfold mixed_atom, lit_has in *.
+    destruct v; auto. destruct (rget c r); auto. destruct (ty c); discriminate. }
   induction p as [c v | c v | c v | c v | c v | c v | c vs | c vs | c lo hi
-                 | l IHl q IHq | l IHl q IHq | q IHq]; cbn [known_mixed]; auto.
-  - destruct (cget c st) eqn:E; auto.
-  - destruct (cget c st) eqn:E; auto.
-  - destruct (cget c st) eqn:E; auto.
-  - destruct (cget c st) eqn:E; auto.
-    induction vs as [|v vs IHv]; cbn; auto. rewrite (Ha c c0 v E). exact IHv.
-  - destruct (cget c st) eqn:E; auto. rewrite (Ha c c0 lo E), (Ha c c0 hi E). reflexivity.
-  - rewrite IHl, IHq. reflexivity.
-  - rewrite IHl, IHq. reflexivity.
+                 | l IHl q IHq | l IHl q IHq | q IHq]; cbn [known_mixed pred_typed]; intros Ht; auto.
+  - destruct (cget c st); auto.
+  - destruct (cget c st); auto.
+  - destruct (cget c st); auto.
+  - destruct (cget c st); auto. exact (typed_group_not_known (ty c) _ _ _ (Hr c) Ht).
+  - destruct (cget c st); auto. apply (typed_group_not_known (ty c)); [exact (Hr c)|].
+    cbn [forallb]. rewrite andb_true_r. exact Ht.
+  - apply andb_true_iff in Ht. destruct Ht as (T1 & T2). rewrite (IHl T1), (IHq T2). reflexivity.
+  - apply andb_true_iff in Ht. destruct Ht as (T1 & T2). rewrite (IHl T1), (IHq T2). reflexivity.
 Qed.
 
-Theorem sound_typed : forall xc p st (rows : list row),
-  (forall r, In r rows -> in_stats r st /\ float_cols_typed r st) ->
+(* the full statement for well-typed rows and predicates: every column has one
+   type, its row values and the literals compared with it are NULL or of that
+   type (integers, floats, strings, booleans); statistics are arbitrary *)
+Theorem sound_well_typed : forall xc xg ty p st (rows : list row),
+  pred_typed ty p = true ->
+  (forall r, In r rows -> in_stats r st /\ row_typed ty r) ->
   eval_stats p st = false ->
-  forall r, In r rows -> sat xc p r <> TT.
+  forall r, In r rows -> sat xc xg p r <> TT.
 Proof.
-  intros xc p st rows H He r Hr. destruct (H r Hr) as (Hin & Ht).
-  apply (sound_modulo_known xc p st r Hin); [apply typed_not_known, Ht | exact He].
-Qed.
-
-(* integer / string / boolean / NULL rows: no float value anywhere *)
-Definition no_float (r : row) : Prop := forall c f, rget c r <> VFloat f.
-
-Theorem sound_int_str : forall xc p st (rows : list row),
-  (forall r, In r rows -> in_stats r st /\ no_float r) ->
-  eval_stats p st = false ->
-  forall r, In r rows -> sat xc p r <> TT.
-Proof.
-  intros xc p st rows H He. apply (sound_typed xc p st rows); [|exact He].
-  intros r Hr. destruct (H r Hr) as (Hin & Hn). split; [exact Hin|].
-  intros c s _. destruct (rget c r) eqn:E; auto. exfalso. exact (Hn c f E).
+  intros xc xg ty p st rows Hp H He r Hr. destruct (H r Hr) as (Hin & Ht).
+  exact (sound_modulo_known xc xg p st r Hin (typed_not_known ty p st r Ht Hp) He).
 Qed.
 
 (* the general statement, row list form *)
-Theorem sound_modulo_known_rows : forall xc p st (rows : list row),
+Theorem sound_modulo_known_rows : forall xc xg p st (rows : list row),
   (forall r, In r rows -> in_stats r st) ->
   eval_stats p st = false ->
-  forall r, In r rows -> known_mixed p st r = false -> sat xc p r <> TT.
+  forall r, In r rows -> known_mixed p st r = false -> sat xc xg p r <> TT.
 Proof.
-  intros xc p st rows H He r Hr Hk. exact (sound_modulo_known xc p st r (H r Hr) Hk He).
+  intros xc xg p st rows H He r Hr Hk. exact (sound_modulo_known xc xg p st r (H r Hr) Hk He).
 Qed.
 
 (* ------------------------------------------------------------------ *)
 (* witnesses                                                            *)
 
 Definition xc_unknown : cop -> value -> value -> tv := fun _ _ _ => UU.
+Definition xg_unknown : list value -> tv := fun _ => UU.
 
 (* the known class: integer statistics above 2^53, integer literal, float row *)
 Definition w_col : colname := 7%N.
@@ -595,10 +648,28 @@ Definition w_mixed_row : row := [(w_col, VFloat (Z2F (2 ^ 53 + 4)))].
 
 Theorem refuted_mixed :
   exists p st r,
-    in_stats r st /\ eval_stats p st = false /\ sat xc_unknown p r = TT /\
+    in_stats r st /\ eval_stats p st = false /\ sat xc_unknown xg_unknown p r = TT /\
     known_mixed p st r = true.
 Proof.
   exists w_mixed_pred, w_mixed_stats, w_mixed_row.
+  split; [apply in_statsb_sound; vm_compute; reflexivity|].
+  repeat split; vm_compute; reflexivity.
+Qed.
+
+(* the same class through a float literal in the same BETWEEN: an integer
+   column, `v BETWEEN 0.5 AND 2^53` (the engine coerces the three operands to
+   f64), statistics [2^53+1, 2^53+1], row 2^53+1 *)
+Definition w_half : binary64 := b64_of_bits 4602678819172646912.
+Definition w_between_pred : pred := PBetween w_col (PFloat w_half) (PInt (2 ^ 53)).
+Definition w_between_stats : stats := [(w_col, mkStats (JInt (2 ^ 53 + 1)) (JInt (2 ^ 53 + 1)) false)].
+Definition w_between_row : row := [(w_col, VInt (2 ^ 53 + 1))].
+
+Theorem refuted_mixed_between :
+  in_stats w_between_row w_between_stats /\
+  eval_stats w_between_pred w_between_stats = false /\
+  sat xc_unknown xg_unknown w_between_pred w_between_row = TT /\
+  known_mixed w_between_pred w_between_stats w_between_row = true.
+Proof.
   split; [apply in_statsb_sound; vm_compute; reflexivity|].
   repeat split; vm_compute; reflexivity.
 Qed.
@@ -611,10 +682,10 @@ Definition w_59_stats : stats := [(w_col, mkStats (JInt 5) (JInt 9) false)].
 Theorem refuted_shared_arms :
   in_stats [(w_col, VInt 5)] w_59_stats /\
   eval_stats_shared_arms w_le_pred w_59_stats = false /\
-  sat xc_unknown w_le_pred [(w_col, VInt 5)] = TT /\
+  sat xc_unknown xg_unknown w_le_pred [(w_col, VInt 5)] = TT /\
   in_stats [(w_col, VInt 9)] w_59_stats /\
   eval_stats_shared_arms w_ge_pred w_59_stats = false /\
-  sat xc_unknown w_ge_pred [(w_col, VInt 9)] = TT /\
+  sat xc_unknown xg_unknown w_ge_pred [(w_col, VInt 9)] = TT /\
   eval_stats w_le_pred w_59_stats = true /\
   eval_stats w_ge_pred w_59_stats = true.
 Proof.
@@ -623,19 +694,23 @@ Qed.
 
 (* non-vacuity: the hypotheses of the soundness theorems are satisfiable
    together with a pruning verdict *)
+Definition w_typing : typing := fun c => if N.eqb c 8 then TStr else TInt.
+
 Example sound_nonvacuous :
   let st := [(w_col, mkStats (JInt 5) (JInt 9) false); (8%N, mkStats (JStr [97%N]) (JStr [99%N]) false)] in
   let r := [(w_col, VInt 7); (8%N, VStr [98%N])] in
-  let p := POr (PLtEq w_col (PInt 4)) (PAnd (PEq 8%N (PStr [100%N])) (PNot (PGt w_col (PInt 0)))) in
-  in_stats r st /\ no_float r /\ float_cols_typed r st /\ known_mixed p st r = false /\
-  eval_stats p st = false /\ sat xc_unknown p r = FF.
+  let p := POr (PLtEq w_col (PInt 4))
+               (PAnd (PIn 8%N [PStr [100%N]; PStr [101%N]]) (PNot (PBetween w_col (PInt 0) (PInt 3)))) in
+  in_stats r st /\ row_typed w_typing r /\ pred_typed w_typing p = true /\
+  known_mixed p st r = false /\
+  eval_stats p st = false /\ sat xc_unknown xg_unknown p r = FF.
 Proof.
   cbv zeta. split; [apply in_statsb_sound; vm_compute; reflexivity|].
-  assert (Hnf : no_float [(w_col, VInt 7); (8%N, VStr [98%N])]).
-  { intros c f. unfold rget. cbn [aget].
-    destruct (N.eqb c w_col); [discriminate|]. destruct (N.eqb c 8); discriminate. }
-  split; [exact Hnf|]. split.
-  { intros c s _. destruct (rget c _) eqn:E; auto. exfalso. exact (Hnf c f E). }
+  split.
+  { intros c. unfold rget, w_typing. cbn [aget].
+    destruct (N.eqb c w_col) eqn:E1.
+    - apply N.eqb_eq in E1. subst c. reflexivity.
+    - destruct (N.eqb c 8) eqn:E2; reflexivity. }
   repeat split; vm_compute; reflexivity.
 Qed.
 
@@ -647,29 +722,28 @@ Example sound_nonvacuous_float :
   let nan := b64_of_bits 9221120237041090560 in
   let st := [(w_col, mkStats (JFloat m0) (JFloat h) false)] in
   let r := [(w_col, VFloat h)] in
-  in_stats r st /\ float_cols_typed r st /\
+  in_stats r st /\ row_typed (fun _ => TFloat) r /\
   eval_stats (PGt w_col (PFloat h)) st = false /\
   eval_stats (PLt w_col (PFloat m0)) st = false /\
   eval_stats (PEq w_col (PFloat nan)) st = false /\
   eval_stats (PGtEq w_col (PFloat h)) st = true.
 Proof.
   cbv zeta. split; [apply in_statsb_sound; vm_compute; reflexivity|]. split.
-  { intros c s Hc. unfold cget in Hc. cbn [aget] in Hc. unfold rget. cbn [aget].
-    destruct (N.eqb c w_col); [|exact I]. inversion Hc. split; reflexivity. }
+  { intros c. unfold rget. cbn [aget]. destruct (N.eqb c w_col); reflexivity. }
   repeat split; vm_compute; reflexivity.
 Qed.
 
 (* ------------------------------------------------------------------ *)
 (* the gate of get_chunks_with_predicates                               *)
 
-Theorem gate_sound : forall xc preds st (rows : list row),
+Theorem gate_sound : forall xc xg preds st (rows : list row),
   (forall r, In r rows -> in_stats r st) ->
   gate preds st = false ->
   forall r, In r rows ->
     (forall p, In p preds -> known_mixed p st r = false) ->
-    exists p, In p preds /\ sat xc p r <> TT.
+    exists p, In p preds /\ sat xc xg p r <> TT.
 Proof.
-  intros xc preds st rows Hin Hg r Hr Hk.
+  intros xc xg preds st rows Hin Hg r Hr Hk.
   unfold gate in Hg.
   assert (Hex : exists p, In p preds /\ eval_stats p st = false).
   { induction preds as [|p ps IH]; cbn in Hg; [discriminate|].
@@ -679,7 +753,7 @@ Proof.
       + intros q Hq. apply Hk. right. exact Hq.
       + exists q. split; [right; exact Hq | exact He]. }
   destruct Hex as (p & Hp & He). exists p. split; [exact Hp|].
-  exact (sound_modulo_known xc p st r (Hin r Hr) (Hk p Hp) He).
+  exact (sound_modulo_known xc xg p st r (Hin r Hr) (Hk p Hp) He).
 Qed.
 
 Lemma chunks_with_predicates_spec : forall (A : Type) preds (chunks : list (A * stats)) c,
@@ -693,15 +767,15 @@ Lemma convert_scalar_value : forall e v,
   convert_scalar e = Some v -> scalar_value e = Some (lit v).
 Proof. intros e v H. unfold scalar_value. rewrite H. reflexivity. Qed.
 
-Lemma esat_and : forall xc l q r, esat xc (EBin l BAnd q) r = tv_and (esat xc l r) (esat xc q r).
+Lemma esat_and : forall xc xg l q r, esat xc xg (EBin l BAnd q) r = tv_and (esat xc xg l r) (esat xc xg q r).
 Proof. reflexivity. Qed.
-Lemma esat_or : forall xc l q r, esat xc (EBin l BOr q) r = tv_or (esat xc l r) (esat xc q r).
+Lemma esat_or : forall xc xg l q r, esat xc xg (EBin l BOr q) r = tv_or (esat xc xg l r) (esat xc xg q r).
 Proof. reflexivity. Qed.
 
-Theorem convert_exact : forall xc e p,
-  convert e = Some p -> forall r, esat xc e r = sat xc p r.
+Theorem convert_exact : forall xc xg e p,
+  convert e = Some p -> forall r, esat xc xg e r = sat xc xg p r.
 Proof.
-  intros xc. unfold convert.
+  intros xc xg. unfold convert.
   induction e as [c | s | l IHl o q IHq | e IHe negated lo IHlo hi IHhi | e IHe l negated | e IHe | ];
     intros p H r; cbn [convert_gen] in H; try discriminate.
   - (* EBin *)
@@ -758,7 +832,7 @@ Theorem refuted_negation_dropped :
   let st := [(w_col, mkStats (JInt 30) (JInt 40) false)] in
   let r := [(w_col, VInt 35)] in
   exists p, convert_negation_dropped e = Some p /\
-    in_stats r st /\ eval_stats p st = false /\ esat xc_unknown e r = TT /\
+    in_stats r st /\ eval_stats p st = false /\ esat xc_unknown xg_unknown e r = TT /\
     convert e = None.
 Proof.
   cbv zeta. eexists. split; [vm_compute; reflexivity|].
@@ -767,14 +841,14 @@ Proof.
 Qed.
 
 (* end to end: expression -> predicate -> statistics verdict *)
-Theorem convert_then_prune_sound : forall xc e p st (rows : list row),
+Theorem convert_then_prune_sound : forall xc xg e p st (rows : list row),
   convert e = Some p ->
   (forall r, In r rows -> in_stats r st) ->
   eval_stats p st = false ->
-  forall r, In r rows -> known_mixed p st r = false -> esat xc e r <> TT.
+  forall r, In r rows -> known_mixed p st r = false -> esat xc xg e r <> TT.
 Proof.
-  intros xc e p st rows Hc Hin He r Hr Hk.
-  rewrite (convert_exact xc e p Hc r). exact (sound_modulo_known xc p st r (Hin r Hr) Hk He).
+  intros xc xg e p st rows Hc Hin He r Hr Hk.
+  rewrite (convert_exact xc xg e p Hc r). exact (sound_modulo_known xc xg p st r (Hin r Hr) Hk He).
 Qed.
 
 Example convert_nonvacuous :
